@@ -89,11 +89,16 @@ class Ctx:
             self._prune()
         return path
 
-    def _prune(self, keep=400):
+    def _prune(self, limit_bytes=3 << 30):
+        """keep the cache below ~3 GB (oldest files first)"""
         try:
-            fs = sorted((os.path.getmtime(os.path.join(CACHE, f)), f) for f in os.listdir(CACHE))
-            for _, f in fs[:-keep]:
+            fs = sorted((os.path.getmtime(os.path.join(CACHE, f)), os.path.getsize(os.path.join(CACHE, f)), f) for f in os.listdir(CACHE))
+            total = sum(x[1] for x in fs)
+            for _, size, f in fs:
+                if total <= limit_bytes:
+                    break
                 os.unlink(os.path.join(CACHE, f))
+                total -= size
         except OSError:
             pass
 
